@@ -6190,8 +6190,32 @@ impl BytecodeVM {
                     return Ok(());
                 }
 
-                // Regular data property
-                obj_ref.borrow_mut().set_property(prop_key, value);
+                // Regular data property. Growing an array (by an index beyond its end or by
+                // assigning `length`) can fail: report that instead of dropping the write
+                {
+                    let mut obj_mut = obj_ref.borrow_mut();
+                    let frozen = obj_mut.frozen;
+                    if !frozen && let Some(elements) = obj_mut.array_elements_mut() {
+                        let new_len = match (&prop_key, &value) {
+                            (PropertyKey::Index(idx), _) if *idx as usize >= elements.len() => {
+                                Some(Some(*idx as usize + 1))
+                            }
+                            (PropertyKey::String(s), JsValue::Number(n)) if s.as_str() == "length" => {
+                                Some(crate::value::array_length_from_number(*n))
+                            }
+                            _ => None,
+                        };
+                        if let Some(new_len) = new_len {
+                            let allocatable = new_len.is_some_and(|len| {
+                                crate::value::array_length_is_allocatable(elements, len)
+                            });
+                            if !allocatable {
+                                return Err(JsError::range_error("Invalid array length"));
+                            }
+                        }
+                    }
+                    obj_mut.set_property(prop_key, value);
+                }
                 Ok(())
             }
             JsValue::Null => Err(JsError::type_error("Cannot set properties of null")),
